@@ -184,6 +184,24 @@ func runCase(r *hx.Run, c hx.Case) {
 	case "lfmulti":
 		// folded by the caller with bare LF + TAB: one CRLF-terminated line for the header-line accounting
 		spec.Pre = []bytex.KV{{K: "X-Multi-LF", V: []string{"line one\n\tline two\n\tline three"}}}
+	case "fixedb":
+		// a predefined boundary (documented for messages with a single inner multipart): the multipart/signed wrapper
+		// needs a boundary of its own
+		layers := 0
+		if len(parts) > 1 {
+			layers++
+		}
+		if (len(parts) > 0 && len(embeds) > 0) || len(embeds) > 1 {
+			layers++
+		}
+		if ((len(parts) > 0 || len(embeds) > 0) && len(attach) > 0) || len(attach) > 1 {
+			layers++
+		}
+		if layers != 1 {
+			r.AddOracleOnly(c, false)
+			return
+		}
+		spec.Boundary = "predefined-boundary-verif"
 	case "longsubject":
 		spec.Gen[0].V = []string{strings.Repeat("a long subject that must be folded ", 6)}
 	}
@@ -264,8 +282,8 @@ func runCase(r *hx.Run, c hx.Case) {
 		if render == 3 {
 			// the message is edited after it has been rendered (the signature part of the earlier renders is
 			// still in the part list, now no longer last) and rendered again: it is a message that can be built
-			if hdrvar == "afterskip" || len(parts) == 0 {
-				break
+			if hdrvar == "afterskip" || hdrvar == "fixedb" || len(parts) == 0 {
+				break // (fixedb: a second inner multipart is outside what a predefined boundary is documented for)
 			}
 			extra := bytex.PartSpec{CType: "text/x-added", Enc: msgenc, Prod: bytex.Producer{Chunks: [][]byte{[]byte("added after the first render\r\n")}}}
 			m.AddAlternativeWriter(mail.ContentType(extra.CType), extra.Prod.Write, mail.WithPartEncoding(mail.Encoding(msgenc)))
@@ -370,7 +388,7 @@ func Run(r *hx.Run, replay []hx.Case) {
 	txt := [][]byte{[]byte("Hello signed world\r\n"), []byte("line with = and trailing blank \r\n.dot\r\n"), []byte("\xc3\xa4 UTF-8 text\r\nsecond\r\n"), []byte("no final newline")}
 	bin := [][]byte{[]byte("\x00\x01binary\xff"), bytes.Repeat([]byte("0123456789"), 30)}
 	encs := []string{"quoted-printable", "base64", "8bit"}
-	hdrvars := []string{"none", "emptygen", "ccignore", "toignore", "preform", "multiline", "lfmulti", "longsubject", "afterskip", "flaky"}
+	hdrvars := []string{"none", "emptygen", "ccignore", "toignore", "preform", "multiline", "lfmulti", "longsubject", "afterskip", "flaky", "fixedb"}
 	names := []string{"a.bin", "a long file name that makes the disposition header exceed the folding limit.pdf", "na\xc3\xafve.txt"}
 	ci := 0
 	for n := 0; n <= 2; n++ {
